@@ -1278,13 +1278,33 @@ func runR103(c *Ctx) {
 		if cf.Pkg == nil || cf.Signature.Recv() == nil || cf.Name() != "Apply1" && cf.Name() != "Apply2" || !strings.HasPrefix(cf.Pkg.Pkg.Path(), rel("internal/")) {
 			continue
 		}
-		eachInstr(cf, func(in ssa.Instruction) {
-			if ta, ok := in.(*ssa.TypeAssert); ok && ta.CommaOk {
-				if sg, ok := ta.AssertedType.(*types.Signature); ok {
-					execSigs[types.TypeString(sg, shortQual)] = fname(cf)
-				}
+		// in the method, or in the helpers of its package it hands the function value to
+		var scan func(f *ssa.Function, d int)
+		seenF := map[*ssa.Function]bool{}
+		scan = func(f *ssa.Function, d int) {
+			if f == nil || f.Blocks == nil || d > 2 || seenF[f] {
+				return
 			}
-		})
+			seenF[f] = true
+			eachInstr(f, func(in ssa.Instruction) {
+				switch t := in.(type) {
+				case *ssa.TypeAssert:
+					if sg, ok := t.AssertedType.(*types.Signature); ok && t.CommaOk {
+						execSigs[types.TypeString(sg, shortQual)] = fname(cf)
+					}
+				case *ssa.Call:
+					if g := t.Call.StaticCallee(); g != nil && g.Pkg == cf.Pkg {
+						for _, a := range t.Call.Args {
+							if _, isIface := a.Type().Underlying().(*types.Interface); isIface {
+								scan(g, d+1)
+								break
+							}
+						}
+					}
+				}
+			})
+		}
+		scan(cf, 0)
 	}
 	if len(execSigs) == 0 {
 		c.undecided("config/eval.SetFunc|executable signatures", p.pos(fn.Pos()), "no Apply1/Apply2 implementation with asserted function signatures found")
